@@ -26,7 +26,8 @@ CFG = dict(
                "chunkings whole/1/7/block-1/block/block+1/random with zero-length writes) run through the real code with exact-equality oracle; the wire bytes of "
                "every stack/transform made of modelled elements, the CBK block functions and the CBK writer (same Write sequence) are recomputed by the model inside Coq; "
                "86 histories (good round trips mixed with faulty receives: DNS streams cut after complete records, wrong record length, garbage, broken zlib/hex, nothing) "
-               "run on the real path with pool probes, against the pool model.",
+               "run on the real path with pool probes, against the pool model; 45 cases of two sends in flight through one stack after a completed send "
+               "(closing wrappers above pooled compressors). A fatal error or stall inside a scenario is reported with that scenario as replay (supervisor/worker).",
     level_note="Proof is about the model; the tie to the code is differential (its strength is that of the generator, distribution in the evidence). "
                "Chunking independence is proved for CBK's own buffering only; for the stdlib stream adapters (hex, base64, cipher.StreamWriter/Reader, zlib, gzip) "
                "it is sampled. One defect repaired (DNS labels, commit facc2eb), one recorded as known finding (CBK key schedule divide by zero). No axioms.",
